@@ -127,70 +127,6 @@ theorem parseTailStart_ok (close : Str) (hc : isCloser close) (need : Nat) (p : 
     rw [parseTailStart_elem f close t0 hne, hread]
     exact thenTail_some _ _ _ _ _ _ htail
 
-/-! ### the fragment of C01 and what its values denote -/
-
-mutual
-/-- values of the built-in literal types (no subclasses), numbers carrying a numeric literal text -/
-def inC01 : PyVal → Bool
-  | .commented v _ => inC01 v
-  | .trailing v _ => inC01 v
-  | .none => true
-  | .ellipsis => true
-  | .bool _ => true
-  | .int cls _ lit => cls.isNone && isNumTok lit
-  | .float cls kind lit _ _ => cls.isNone && (kind != 0 || isNumTok lit)
-  | .str cls _ _ => cls.isNone
-  | .seq kind cls xs => cls.isNone && decide (kind ≤ 2) && inC01L xs
-  | .frozenset cls xs => cls.isNone && inC01L xs
-  | .dict cls kvs => cls.isNone && inC01P kvs
-  | _ => false
-def inC01L : List PyVal → Bool
-  | [] => true
-  | v :: r => inC01 v && inC01L r
-def inC01P : List (PyVal × PyVal) → Bool
-  | [] => true
-  | (k, v) :: r => inC01 k && inC01 v && inC01P r
-end
-
-mutual
-def erase : PyVal → RVal
-  | .commented v _ => erase v
-  | .trailing v _ => erase v
-  | .none => .kw sNone
-  | .ellipsis => .kw sEll
-  | .bool b => .kw (if b then sTrue else sFalse)
-  | .int _ _ lit => .num lit
-  | .float _ kind lit _ _ => if kind == 0 then .num lit else .fspecial (floatName kind)
-  | .str _ b s => .str b (cps s)
-  | .seq kind _ xs => if kind == 0 then .list (eraseL xs) else if kind == 1 then .tuple (eraseL xs) else .set (eraseL xs)
-  | .frozenset _ xs => .fset (eraseL xs)
-  | .dict _ kvs => .dict (eraseP kvs)
-  | _ => .kw []
-def eraseL : List PyVal → List RVal
-  | [] => []
-  | v :: r => erase v :: eraseL r
-def eraseP : List (PyVal × PyVal) → List (RVal × RVal)
-  | [] => []
-  | (k, v) :: r => (erase k, erase v) :: eraseP r
-end
-
-mutual
-/-- fuel the reader needs for the tokens of a value -/
-def need : PyVal → Nat
-  | .commented v _ => need v
-  | .trailing v _ => need v
-  | .seq _ _ xs => xs.length + 4 + needL xs
-  | .frozenset _ xs => xs.length + 5 + needL xs
-  | .dict _ kvs => kvs.length + 4 + needP kvs
-  | _ => 1
-def needL : List PyVal → Nat
-  | [] => 0
-  | v :: r => max (need v) (needL r)
-def needP : List (PyVal × PyVal) → Nat
-  | [] => 0
-  | (k, v) :: r => max (max (need k) (need v)) (needP r)
-end
-
 theorem withTruncation_noLimit' (len : Nat) (t : Option PS) : withTruncation len none t = t := rfl
 
 /-! ### leaves -/
@@ -272,7 +208,216 @@ theorem fspecial_read (n : Str) : ElemOk [.code sFloat, LP, .lit (some n), RP] (
   | zero => omega
   | succ f => simp [parseV, sFloat, LP, RP]
 
+/-! ### calls -/
+
+/-- a callable name the reader takes as one: an identifier that is none of the words with a reading of their own -/
+def okName (s : Str) : Bool :=
+  isNameTok s && !(s == [98]) && !(s == sFloat) && !(s == sSet) && !(s == sFrozenset) && !isKwTok s
+
+theorem okName_facts (s : Str) (h : okName s = true) :
+    ∃ c l, s = c :: l ∧ ((65 ≤ c ∧ c ≤ 90) ∨ (97 ≤ c ∧ c ≤ 122) ∨ c = 95) ∧
+      (s == [98]) = false ∧ (s == sFloat) = false ∧ (s == sSet) = false ∧ (s == sFrozenset) = false ∧ isKwTok s = false := by
+  simp only [okName, Bool.and_eq_true, Bool.not_eq_true'] at h
+  obtain ⟨⟨⟨⟨⟨h1, h2⟩, h3⟩, h4⟩, h5⟩, h6⟩ := h
+  cases s with
+  | nil => simp [isNameTok] at h1
+  | cons c l =>
+    refine ⟨c, l, rfl, ?_, h2, h3, h4, h5, h6⟩
+    have : (65 ≤ c ∧ c ≤ 90 ∨ 97 ≤ c ∧ c ≤ 122) ∨ c = 95 := by simpa [isNameTok] using h1
+    omega
+
+theorem okName_not_blank (s : Str) (h : okName s = true) : isBlank s = false := by
+  obtain ⟨c, l, rfl, hc, _⟩ := okName_facts s h
+  have : (c == 32) = false := by apply beq_false_of_ne; omega
+  simp [isBlank, this]
+
+theorem headOk_name (s : Str) (h : okName s = true) (r : List CT) : HeadOk (.code s :: r) := by
+  obtain ⟨c, l, rfl, hc, _⟩ := okName_facts s h
+  refine headOk_code _ ?_ ?_ ?_ ?_ ?_ _ <;> (intro e; injection e with e1; omega)
+
+/-- the dispatch of `parseV` on a callable name -/
+theorem parseV_name (f : Nat) (s : Str) (h : okName s = true) (r : List CT) :
+    parseV (f + 1) (.code s :: r) = afterName s r (fun t => parseV f t) (fun t => parseTailStart f [41] t) := by
+  obtain ⟨c, l, rfl, hc, e1, e5, e6, e7, e8⟩ := okName_facts s h
+  have ne : ∀ d m, (d < 65 ∨ (90 < d ∧ d < 95) ∨ d = 96 ∨ 122 < d) → (c :: l == d :: m) = false := by
+    intro d m hd; apply beq_head_ne; omega
+  have e2 := ne 91 [] (by omega)
+  have e3 := ne 40 [] (by omega)
+  have e4 := ne 123 [] (by omega)
+  have e9 : isNumTok (c :: l) = false := by
+    have : ¬ ((48 ≤ c ∧ c ≤ 57) ∨ c = 45) := by omega
+    simpa [isNumTok] using this
+  have e10 : isNameTok (c :: l) = true := by
+    have : (65 ≤ c ∧ c ≤ 90 ∨ 97 ≤ c ∧ c ≤ 122) ∨ c = 95 := by omega
+    simpa [isNameTok] using this
+  simp only [parseV, e1, e2, e3, e4, e5, e6, e7, e8, e9, e10, Bool.false_eq_true, if_false, if_true]
+
+theorem parseV_call (f : Nat) (s : Str) (h : okName s = true) (r : List CT) :
+    parseV (f + 1) (.code s :: LP :: r) = asCall s (parseTailStart f [41] r) := by
+  rw [parseV_name f s h]; rfl
+
+theorem parseV_kwarg (f : Nat) (s : Str) (h : okName s = true) (r : List CT) :
+    parseV (f + 1) (.code s :: .code [61] :: r) = asKw s (parseV f r) := by
+  rw [parseV_name f s h]; rfl
+
+/-- `name = value` reads as a keyword item -/
+theorem kwarg_read (k : Str) (hk : okName k = true) (ts : List CT) (r : RVal) (n : Nat) (h : ElemOk ts r n) :
+    ElemOk (.code k :: .code [61] :: ts) (.kwarg k r) (n + 1) := by
+  refine ⟨headOk_name k hk _, ?_⟩
+  intro f hf rest
+  cases f with
+  | zero => omega
+  | succ f =>
+    simp only [List.cons_append]
+    rw [parseV_kwarg f k hk, h.reads f (by omega) rest]
+    rfl
+
+/-- `name(item, ..., item)` reads as a call with the items in order -/
+theorem call_read (name : Str) (hn : okName name = true) (ps : List (List CT × RVal)) (n : Nat)
+    (h : ∀ p ∈ ps, ElemOk p.1 p.2 n) :
+    ElemOk (.code name :: LP :: (seqToks (ps.map (·.1)) false ++ [RP])) (.call name (ps.map (·.2))) (ps.length + 4 + n) := by
+  refine ⟨headOk_name name hn _, ?_⟩
+  intro f hf rest
+  cases f with
+  | zero => omega
+  | succ f =>
+    simp only [List.cons_append]
+    rw [parseV_call f name hn]
+    cases ps with
+    | nil =>
+      cases f with
+      | zero => omega
+      | succ f => simp [seqToks, RP, parseTailStart_close, asCall]
+    | cons p ps' =>
+      have := parseTailStart_ok [41] (Or.inr (Or.inl rfl)) n p ps' false h f (by simp at hf ⊢; omega) rest
+      simp only [List.map_cons, seqToks_cons, List.append_assoc, RP, List.singleton_append] at this ⊢
+      rw [this]
+      rfl
+
+/-! ### the fragments and what their values denote -/
+
+mutual
+/-- values of the built-in literal types (no subclasses), numbers carrying a numeric literal text -/
+def inC01 : PyVal → Bool
+  | .commented v _ => inC01 v
+  | .trailing v _ => inC01 v
+  | .none => true
+  | .ellipsis => true
+  | .bool _ => true
+  | .int cls _ lit => cls.isNone && isNumTok lit
+  | .float cls kind lit _ _ => cls.isNone && (kind != 0 || isNumTok lit)
+  | .str cls _ _ => cls.isNone
+  | .seq kind cls xs => cls.isNone && decide (kind ≤ 2) && inC01L xs
+  | .frozenset cls xs => cls.isNone && inC01L xs
+  | .dict cls kvs => cls.isNone && inC01P kvs
+  | _ => false
+def inC01L : List PyVal → Bool
+  | [] => true
+  | v :: r => inC01 v && inC01L r
+def inC01P : List (PyVal × PyVal) → Bool
+  | [] => true
+  | (k, v) :: r => inC01 k && inC01 v && inC01P r
+end
+
+/-- no subclass, or a subclass whose name reads as a callable -/
+def clsOk (cls : Option QualName) : Bool := match cls with | none => true | some q => okName q.2
+
+/-- an empty instance of a dict subclass (under any comments): the one value whose tokens change under a trailing comment (K7) -/
+def emptyDictSub : PyVal → Bool
+  | .commented v _ => emptyDictSub v
+  | .trailing v _ => emptyDictSub v
+  | .dict (some _) [] => true
+  | _ => false
+
+mutual
+/-- the readable fragment: built-in values, instances of their subclasses (C08) and call-style printed objects (C17), nested
+in any way, with comments anywhere — except a non-empty trailing comment on an empty dict-subclass instance (K7) -/
+def inRd : PyVal → Bool
+  | .commented v _ => inRd v
+  | .trailing v t => inRd v && (t.isEmpty || !emptyDictSub v)
+  | .none => true
+  | .ellipsis => true
+  | .bool _ => true
+  | .int cls _ lit => clsOk cls && isNumTok lit
+  | .float cls kind lit _ _ => clsOk cls && (kind != 0 || isNumTok lit)
+  | .str cls _ _ => clsOk cls
+  | .seq kind cls xs => clsOk cls && decide (kind ≤ 2) && inRdL xs
+  | .frozenset cls xs => clsOk cls && inRdL xs
+  | .dict cls kvs => clsOk cls && inRdP kvs
+  | .call f args kwargs => okName f.2 && inRdL args && inRdK kwargs
+  | _ => false
+def inRdL : List PyVal → Bool
+  | [] => true
+  | v :: r => inRd v && inRdL r
+def inRdP : List (PyVal × PyVal) → Bool
+  | [] => true
+  | (k, v) :: r => inRd k && inRd v && inRdP r
+def inRdK : List (Str × PyVal) → Bool
+  | [] => true
+  | (k, v) :: r => okName k && inRd v && inRdK r
+end
+
+/-- a subclass instance denotes the call of its class on the underlying value -/
+def wrapR (cls : Option QualName) (r : RVal) : RVal := match cls with | none => r | some q => .call q.2 [r]
+/-- … and on nothing when the underlying container is empty -/
+def wrapNE (cls : Option QualName) (empty : Bool) (r : RVal) : RVal :=
+  match cls with | none => r | some q => if empty then .call q.2 [] else .call q.2 [r]
+def mkSeq (kind : Nat) (rs : List RVal) : RVal := if kind == 0 then .list rs else if kind == 1 then .tuple rs else .set rs
+def floatR (cls : Option QualName) (kind : Nat) (lit : Str) : RVal :=
+  if kind == 0 then wrapR cls (.num lit)
+  else match cls with | none => .fspecial (floatName kind) | some q => .call q.2 [.str false (floatName kind)]
+def fsetR (cls : Option QualName) (empty : Bool) (rs : List RVal) : RVal :=
+  match cls with | none => .fset rs | some q => if empty then .call q.2 [] else .call q.2 [.list rs]
+
+mutual
+def erase : PyVal → RVal
+  | .commented v _ => erase v
+  | .trailing v _ => erase v
+  | .none => .kw sNone
+  | .ellipsis => .kw sEll
+  | .bool b => .kw (if b then sTrue else sFalse)
+  | .int cls _ lit => wrapR cls (.num lit)
+  | .float cls kind lit _ _ => floatR cls kind lit
+  | .str cls b s => wrapR cls (.str b (cps s))
+  | .seq kind cls xs => wrapNE cls xs.isEmpty (mkSeq kind (eraseL xs))
+  | .frozenset cls xs => fsetR cls xs.isEmpty (eraseL xs)
+  | .dict cls kvs => wrapNE cls kvs.isEmpty (.dict (eraseP kvs))
+  | .call f args kwargs => .call f.2 (eraseL args ++ eraseK kwargs)
+  | _ => .kw []
+def eraseL : List PyVal → List RVal
+  | [] => []
+  | v :: r => erase v :: eraseL r
+def eraseP : List (PyVal × PyVal) → List (RVal × RVal)
+  | [] => []
+  | (k, v) :: r => (erase k, erase v) :: eraseP r
+def eraseK : List (Str × PyVal) → List RVal
+  | [] => []
+  | (k, v) :: r => .kwarg k (erase v) :: eraseK r
+end
+
+mutual
+/-- fuel the reader needs for the tokens of a value -/
+def need : PyVal → Nat
+  | .commented v _ => need v
+  | .trailing v _ => need v
+  | .seq _ _ xs => xs.length + 10 + needL xs
+  | .frozenset _ xs => xs.length + 10 + needL xs
+  | .dict _ kvs => kvs.length + 10 + needP kvs
+  | .call _ args kwargs => args.length + kwargs.length + 6 + max (needL args) (needK kwargs)
+  | _ => 6
+def needL : List PyVal → Nat
+  | [] => 0
+  | v :: r => max (need v) (needL r)
+def needP : List (PyVal × PyVal) → Nat
+  | [] => 0
+  | (k, v) :: r => max (max (need k) (need v)) (needP r)
+def needK : List (Str × PyVal) → Nat
+  | [] => 0
+  | (_, v) :: r => max (need v + 1) (needK r)
+end
+
 /-! ### containers -/
+
 
 /-- a context without depth limit, max_seq_len and key sorting -/
 def Free (ctx : Ctx) : Prop := ctx.depthLeft = none ∧ ctx.maxSeqLen = none ∧ ctx.sortKeys = false
@@ -494,144 +639,329 @@ theorem pairPairs_length (ctx : Ctx) : ∀ kvs, (pairPairs ctx kvs).length = kvs
   | [] => rfl
   | (k, v) :: r => by simp [pairPairs, pairPairs_length ctx r]
 
+/-! ### wrappers -/
+
+theorem callToks_one (q : QualName) (hq : okName q.2 = true) (t : List CT) :
+    callToks q [t] = .code q.2 :: LP :: (seqToks [t] false ++ [RP]) := by
+  simp [callToks, cd, okName_not_blank q.2 hq]
+
+/-- `Cls(<tokens of the underlying value>)` reads as the call of the class on what those tokens read as -/
+theorem wrap_read (q : QualName) (hq : okName q.2 = true) (t : List CT) (r : RVal) (n : Nat) (h : ElemOk t r n) :
+    ElemOk (callToks q [t]) (.call q.2 [r]) (n + 5) := by
+  rw [callToks_one q hq]
+  have := call_read q.2 hq [(t, r)] n (by intro p hp; simp at hp; subst hp; exact h)
+  simpa [Nat.add_comm] using this
+
+theorem empty_call_read (ctx : Ctx) (hf : Free ctx) (q : QualName) (hq : okName q.2 = true) :
+    ElemOk (emptyCallToks ctx q) (.call q.2 []) 4 := by
+  have : emptyCallToks ctx q = .code q.2 :: LP :: (seqToks (([] : List (List CT × RVal)).map (·.1)) false ++ [RP]) := by
+    simp [emptyCallToks, hf.any, cd, okName_not_blank q.2 hq, seqToks]
+  rw [this]
+  exact call_read q.2 hq [] 0 (by intro p hp; cases hp)
+
+theorem wrapR_read (cls : Option QualName) (hc : clsOk cls = true) (t : List CT) (r : RVal) (n : Nat) (h : ElemOk t r n) :
+    ElemOk (wrapToks cls t) (wrapR cls r) (n + 5) := by
+  cases cls with
+  | none => exact h.mono (by omega)
+  | some q => exact wrap_read q hc t r n h
+
+/-! ### keyword items -/
+
+def kwPairs (ctx : Ctx) : List (Str × PyVal) → List (List CT × RVal)
+  | [] => []
+  | (k, v) :: r => (.code k :: .code [61] :: canonW ctx v none, .kwarg k (erase v)) :: kwPairs ctx r
+
+theorem kwPairs_snd (ctx : Ctx) : ∀ kws, (kwPairs ctx kws).map (·.2) = eraseK kws
+  | [] => rfl
+  | (k, v) :: r => by simp [kwPairs, eraseK, kwPairs_snd ctx r]
+theorem kwPairs_length (ctx : Ctx) : ∀ kws, (kwPairs ctx kws).length = kws.length
+  | [] => rfl
+  | (k, v) :: r => by simp [kwPairs, kwPairs_length ctx r]
+
 mutual
-theorem canon_reads : (v : PyVal) → inC01 v = true → ∀ (ctx : Ctx), Free ctx → ∀ (tr : Option PS),
-    ElemOk (canonW ctx v tr) (erase v) (need v)
-  | .commented v t, h, ctx, hf, tr => by
-      simp only [canonW, erase, need]; exact canon_reads v (by simpa [inC01] using h) ctx hf tr
-  | .trailing v t, h, ctx, hf, tr => by
-      simp only [canonW, erase, need]; exact canon_reads v (by simpa [inC01] using h) ctx hf (some t)
-  | .none, _, ctx, hf, tr => by simp only [canonW, erase, need]; exact kw_read sNone (Or.inl rfl)
-  | .ellipsis, _, ctx, hf, tr => by
-      simp only [canonW, erase, need]; exact kw_read sEll (Or.inr (Or.inr (Or.inr rfl)))
-  | .bool b, _, ctx, hf, tr => by
+theorem canon_reads : (v : PyVal) → inRd v = true → ∀ (ctx : Ctx), Free ctx → ∀ (tr : Option PS),
+    (emptyDictSub v = true → nonEmpty? tr = none) → ElemOk (canonW ctx v tr) (erase v) (need v)
+  | .commented v t, h, ctx, hf, tr, htr => by
+      simp only [canonW, erase, need]
+      exact canon_reads v (by simpa [inRd] using h) ctx hf tr (by simpa [emptyDictSub] using htr)
+  | .trailing v t, h, ctx, hf, tr, _ => by
+      simp only [canonW, erase, need]
+      simp only [inRd, Bool.and_eq_true, Bool.or_eq_true, Bool.not_eq_true'] at h
+      refine canon_reads v h.1 ctx hf (some t) ?_
+      intro he
+      rcases h.2 with h2 | h2
+      · simp only [nonEmpty?]; rw [if_pos h2]
+      · rw [he] at h2; cases h2
+  | .none, _, ctx, hf, tr, _ => by
+      simp only [canonW, erase, need]; exact (kw_read sNone (Or.inl rfl)).mono (by omega)
+  | .ellipsis, _, ctx, hf, tr, _ => by
+      simp only [canonW, erase, need]; exact (kw_read sEll (Or.inr (Or.inr (Or.inr rfl)))).mono (by omega)
+  | .bool b, _, ctx, hf, tr, _ => by
       simp only [canonW, erase, need]
       cases b
-      · exact kw_read sFalse (Or.inr (Or.inr (Or.inl rfl)))
-      · exact kw_read sTrue (Or.inr (Or.inl rfl))
-  | .int cls val lit, h, ctx, hf, tr => by
-      simp only [inC01, Bool.and_eq_true, Option.isNone_iff_eq_none] at h
-      obtain ⟨rfl, hl⟩ := h
-      simp only [canonW, hf.depthZero, Bool.false_eq_true, if_false, wrapToks, erase, need, cd_name lit (numTok_not_blank lit hl)]
-      exact num_read lit hl
-  | .float cls kind lit n d, h, ctx, hf, tr => by
-      simp only [inC01, Bool.and_eq_true, Option.isNone_iff_eq_none, Bool.or_eq_true] at h
-      obtain ⟨rfl, hl⟩ := h
-      simp only [canonW, hf.depthZero, Bool.false_eq_true, if_false, erase, need, Option.getD_none]
+      · exact (kw_read sFalse (Or.inr (Or.inr (Or.inl rfl)))).mono (by omega)
+      · exact (kw_read sTrue (Or.inr (Or.inl rfl))).mono (by omega)
+  | .int cls val lit, h, ctx, hf, tr, _ => by
+      simp only [inRd, Bool.and_eq_true] at h
+      obtain ⟨hc, hl⟩ := h
+      simp only [canonW, hf.depthZero, Bool.false_eq_true, if_false, erase, need, cd_name lit (numTok_not_blank lit hl)]
+      exact (wrapR_read cls hc _ _ 1 (num_read lit hl)).mono (by omega)
+  | .float cls kind lit n d, h, ctx, hf, tr, _ => by
+      simp only [inRd, Bool.and_eq_true, Bool.or_eq_true] at h
+      obtain ⟨hc, hl⟩ := h
+      simp only [canonW, hf.depthZero, Bool.false_eq_true, if_false, erase, need, floatR]
       by_cases hk : (kind == 0) = true
       · have hl' : isNumTok lit = true := by
           rcases hl with h | h
           · have h0 : kind = 0 := by simpa using hk
             subst h0; simp at h
           · exact h
-        simp only [hk, if_true, wrapToks, cd_name lit (numTok_not_blank lit hl')]
-        exact num_read lit hl'
+        simp only [hk, if_true, cd_name lit (numTok_not_blank lit hl')]
+        exact (wrapR_read cls hc _ _ 1 (num_read lit hl')).mono (by omega)
       · simp only [hk, Bool.false_eq_true, if_false, hf.nested.depthZero]
-        have : callToks (builtin nmFloat) [[CT.lit (some (floatName kind))]] = [.code sFloat, LP, .lit (some (floatName kind)), RP] := by
-          simp [callToks, builtin, nmFloat, sFloat, cd, isBlank, seqToks]
-        rw [this]
-        exact fspecial_read _
-  | .str cls b s, h, ctx, hf, tr => by
-      simp only [inC01, Option.isNone_iff_eq_none] at h
-      subst h
-      simp only [canonW, hf.depthZero, Bool.false_eq_true, if_false, erase, need, strCanon]
-      exact str_read b (cps s)
-  | .seq kind cls xs, h, ctx, hf, tr => by
-      simp only [inC01, Bool.and_eq_true, Option.isNone_iff_eq_none, decide_eq_true_eq] at h
-      obtain ⟨⟨rfl, hk⟩, hxs⟩ := h
-      simp only [canonW]
+        cases cls with
+        | none =>
+          have : callToks (builtin nmFloat) [[CT.lit (some (floatName kind))]] = [.code sFloat, LP, .lit (some (floatName kind)), RP] := by
+            simp [callToks, builtin, nmFloat, sFloat, cd, isBlank, seqToks]
+          simp only [Option.getD_none]
+          rw [this]
+          exact (fspecial_read _).mono (by omega)
+        | some q =>
+          simp only [Option.getD_some]
+          have := wrap_read q hc [CT.lit (some (floatName kind))] (.str false (floatName kind)) 1 (by simpa using str_read false (floatName kind))
+          exact this.mono (by omega)
+  | .str cls b s, h, ctx, hf, tr, _ => by
+      simp only [inRd] at h
+      simp only [canonW, hf.depthZero, Bool.false_eq_true, if_false, erase, need]
+      cases cls with
+      | none => simp only [strCanon, wrapR]; exact (str_read b (cps s)).mono (by omega)
+      | some q =>
+        have e : strCanon { s := s, isBytes := b, cls := some q } =
+            callToks q [(if b then [CT.code [98]] else []) ++ [.lit (some (cps s))]] := by
+          simp [strCanon, callToks, cd, okName_not_blank q.2 h, seqToks, LP, RP]
+        rw [e]
+        exact (wrap_read q h _ _ 1 (str_read b (cps s))).mono (by omega)
+  | .seq kind cls xs, h, ctx, hf, tr, _ => by
+      simp only [inRd, Bool.and_eq_true, decide_eq_true_eq] at h
+      obtain ⟨⟨hc, hk⟩, hxs⟩ := h
+      have hnone : ElemOk (seqCanon ctx kind none xs.length (canonL ctx.nested xs) (nonEmpty? tr)) (mkSeq kind (eraseL xs))
+          (xs.length + 4 + needL xs) := by
+        cases xs with
+        | nil =>
+          -- the empty list / tuple / set
+          simp only [seqCanon, List.length_nil, beq_self_eq_true, if_true, Option.isNone_none, Bool.and_true, canonL, eraseL, mkSeq]
+          have hk3 : kind = 0 ∨ kind = 1 ∨ kind = 2 := by omega
+          rcases hk3 with rfl | rfl | rfl
+          · refine ⟨headOk_open 91 (Or.inl rfl) _, ?_⟩
+            intro f hfu rest
+            cases f with
+            | zero => simp [needL] at hfu
+            | succ f =>
+              cases f with
+              | zero => simp [needL] at hfu
+              | succ f => simp [bracketToks, parseV_list, parseTailStart_close, asList]
+          · refine ⟨headOk_open 40 (Or.inr (Or.inl rfl)) _, ?_⟩
+            intro f hfu rest
+            cases f with
+            | zero => simp [needL] at hfu
+            | succ f =>
+              cases f with
+              | zero => simp [needL] at hfu
+              | succ f => simp [bracketToks, LP, RP, parseV_tuple, parseTailStart_close, asTuple]
+          · have : emptyCallToks ctx (builtin (seqName 2)) = [.code sSet, LP, RP] := by
+              simp [emptyCallToks, hf.any, builtin, seqName, nmSet, sSet, cd, isBlank]
+            simp only [bne_self_eq_false, Bool.false_and, Bool.false_eq_true, if_false, Option.getD_none, this]
+            refine ⟨headOk_code _ (by decide) (by decide) (by decide) (by decide) (by decide) _, ?_⟩
+            intro f hfu rest
+            cases f with
+            | zero => simp [needL] at hfu
+            | succ f => simpa using parseV_set0 f rest
+        | cons x xs' =>
+          simp only [inRdL, Bool.and_eq_true] at hxs
+          have hpairs : ∀ q ∈ elemPairs ctx.nested (x :: xs'), ElemOk q.1 q.2 (needL (x :: xs')) := by
+            exact elemPairs_ok (x :: xs') (by simpa [inRdL] using hxs) ctx.nested hf.nested
+          rw [seq_body ctx hf kind x xs' (nonEmpty? tr)]
+          simp only [mkSeq]
+          have hk3 : kind = 0 ∨ kind = 1 ∨ kind = 2 := by omega
+          have hstart : ∀ (close : Str) (hc : isCloser close) (f : Nat), xs'.length + 3 + needL (x :: xs') ≤ f → ∀ (tc : Bool) (rest : List CT),
+              parseTailStart f close (canonW ctx.nested x none ++ tailToks (canonL ctx.nested xs') tc ++ .code close :: rest) =
+                some (eraseL (x :: xs'), tc, rest) := by
+            intro close hc f hfu tc rest
+            have := parseTailStart_ok close hc (needL (x :: xs')) (canonW ctx.nested x none, erase x) (elemPairs ctx.nested xs') tc
+              (by simpa [elemPairs] using hpairs) f (by rw [elemPairs_length]; exact hfu) rest
+            simpa [elemPairs_fst, elemPairs_snd, eraseL] using this
+          rcases hk3 with rfl | rfl | rfl
+          · refine ⟨headOk_open 91 (Or.inl rfl) _, ?_⟩
+            intro f hfu rest
+            cases f with
+            | zero => simp at hfu
+            | succ f =>
+              have := hstart [93] (Or.inl rfl) f (by simp at hfu ⊢; omega) ((nonEmpty? tr).isSome || (0 == 1 && xs'.isEmpty)) rest
+              simp only [bracketToks, beq_self_eq_true, if_true, List.cons_append, List.nil_append, List.append_assoc, List.singleton_append] at this ⊢
+              rw [parseV_list, this]
+              rfl
+          · refine ⟨headOk_open 40 (Or.inr (Or.inl rfl)) _, ?_⟩
+            intro f hfu rest
+            cases f with
+            | zero => simp at hfu
+            | succ f =>
+              have := hstart [41] (Or.inr (Or.inl rfl)) f (by simp at hfu ⊢; omega) ((nonEmpty? tr).isSome || (1 == 1 && xs'.isEmpty)) rest
+              simp only [bracketToks, LP, RP, List.cons_append, List.nil_append, List.append_assoc, List.singleton_append] at this ⊢
+              simp only [show ((1 : Nat) == 0) = false from rfl, Bool.false_eq_true, if_false, beq_self_eq_true, if_true] at this ⊢
+              rw [parseV_tuple, this]
+              -- a one-element tuple always carries its comma
+              cases xs' with
+              | nil => simp [asTuple, eraseL]
+              | cons y ys => simp [asTuple, eraseL]
+          · have eT : ((nonEmpty? tr).isSome || ((2 : Nat) == 1 && xs'.isEmpty)) = (nonEmpty? tr).isSome := by simp
+            rw [eT]
+            refine ⟨headOk_open 123 (Or.inr (Or.inr rfl)) _, ?_⟩
+            intro f hfu rest
+            cases f with
+            | zero => simp at hfu
+            | succ f =>
+              cases f with
+              | zero => simp at hfu; omega
+              | succ f =>
+                have hx := hpairs (canonW ctx.nested x none, erase x) (by simp [elemPairs])
+                obtain ⟨t0, tr0, ht, _, _, hn3, _, _⟩ := hx.head
+                simp only at ht
+                have hread := hx.reads f (by simp at hfu ⊢; have := need_le_needL (x :: xs') x (by simp); omega)
+                  (tailToks (canonL ctx.nested xs') (nonEmpty? tr).isSome ++ .code [125] :: rest)
+                have htail := parseTail_ok [125] (Or.inr (Or.inr rfl)) (needL (x :: xs')) (elemPairs ctx.nested xs')
+                  (nonEmpty? tr).isSome (fun q hq => hpairs q (by simp [elemPairs, hq])) f
+                  (by rw [elemPairs_length]; simp at hfu ⊢; omega) rest
+                rw [elemPairs_fst, elemPairs_snd] at htail
+                simp only [bracketToks, List.cons_append, List.nil_append, List.append_assoc, List.singleton_append]
+                simp only [show ((2 : Nat) == 0) = false from rfl, show ((2 : Nat) == 1) = false from rfl, Bool.false_eq_true, if_false]
+                rw [parseV_brace]
+                simp only at hread
+                rw [ht] at hread ⊢
+                simp only [List.cons_append] at hread ⊢
+                have hb : ∀ r, parseBrace (f + 1) (t0 :: r) =
+                    braceAfterFirst (parseV f (t0 :: r)) (fun t => parseV f t) (fun t => parsePairs f t) (fun t => parseTail f [125] t) := by
+                  intro r
+                  cases t0 with
+                  | code c2 =>
+                    have : c2 ≠ [125] := fun e => hn3 (by rw [e])
+                    simp [parseBrace, this]
+                  | lit v => simp [parseBrace]
+                rw [hb, hread]
+                rw [braceAfterFirst_set _ _ _ _ _ _ _ _ (tailToks_head _ _ _ _ (by decide)) htail]
+                simp [eraseL]
+      simp only [canonW, erase, need]
+      cases cls with
+      | none => exact hnone.mono (by omega)
+      | some q =>
+        simp only [wrapNE]
+        cases xs with
+        | nil =>
+          have : seqCanon ctx kind (some q) ([] : List PyVal).length (canonL ctx.nested []) (nonEmpty? tr) = emptyCallToks ctx q := by
+            simp [seqCanon]
+          rw [this]
+          exact (empty_call_read ctx hf q hc).mono (by simp; omega)
+        | cons x xs' =>
+          have : seqCanon ctx kind (some q) (x :: xs').length (canonL ctx.nested (x :: xs')) (nonEmpty? tr) =
+              callToks q [seqCanon ctx kind none (x :: xs').length (canonL ctx.nested (x :: xs')) (nonEmpty? tr)] := by
+            simp [seqCanon, hf.depthZero]
+          rw [this]
+          simp only [List.isEmpty_cons, Bool.false_eq_true, if_false]
+          exact (wrap_read q hc _ _ _ hnone).mono (by simp; omega)
+  | .frozenset cls xs, h, ctx, hf, tr, _ => by
+      simp only [inRd, Bool.and_eq_true] at h
+      obtain ⟨hc, hxs⟩ := h
+      simp only [canonW, hf.any, Bool.false_eq_true, if_false, erase, need]
       cases xs with
       | nil =>
-        -- the empty list / tuple / set
-        simp only [seqCanon, List.length_nil, beq_self_eq_true, if_true, Option.isNone_none, Bool.and_true, canonL, erase, eraseL, need]
-        have hk3 : kind = 0 ∨ kind = 1 ∨ kind = 2 := by omega
-        rcases hk3 with rfl | rfl | rfl
-        · refine ⟨headOk_open 91 (Or.inl rfl) _, ?_⟩
-          intro f hfu rest
-          cases f with
-          | zero => simp [needL] at hfu
-          | succ f =>
-            cases f with
-            | zero => simp [needL] at hfu
-            | succ f => simp [bracketToks, parseV_list, parseTailStart_close, asList]
-        · refine ⟨headOk_open 40 (Or.inr (Or.inl rfl)) _, ?_⟩
-          intro f hfu rest
-          cases f with
-          | zero => simp [needL] at hfu
-          | succ f =>
-            cases f with
-            | zero => simp [needL] at hfu
-            | succ f => simp [bracketToks, LP, RP, parseV_tuple, parseTailStart_close, asTuple]
-        · have : emptyCallToks ctx (builtin (seqName 2)) = [.code sSet, LP, RP] := by
-            simp [emptyCallToks, hf.any, builtin, seqName, nmSet, sSet, cd, isBlank]
-          simp only [bne_self_eq_false, Bool.false_and, Bool.false_eq_true, if_false, Option.getD_none, this]
+        simp only [List.isEmpty_nil, if_true, eraseL]
+        cases cls with
+        | none =>
+          have hname : cd (builtin nmFrozenset).2 = [.code sFrozenset] := by simp [builtin, nmFrozenset, sFrozenset, cd, isBlank]
+          simp only [Option.getD_none, hname, fsetR]
           refine ⟨headOk_code _ (by decide) (by decide) (by decide) (by decide) (by decide) _, ?_⟩
           intro f hfu rest
           cases f with
-          | zero => simp [needL] at hfu
-          | succ f => simpa using parseV_set0 f rest
+          | zero => simp at hfu
+          | succ f => simpa using parseV_fset0 f rest
+        | some q =>
+          simp only [Option.getD_some, fsetR, if_true]
+          have := empty_call_read ctx hf q hc
+          simp only [emptyCallToks, hf.any, Bool.false_eq_true, if_false] at this
+          exact this.mono (Nat.le_trans (by decide : 4 ≤ 10) (Nat.le_add_right _ _))
       | cons x xs' =>
-        simp only [inC01L, Bool.and_eq_true] at hxs
-        have hpairs : ∀ q ∈ elemPairs ctx.nested (x :: xs'), ElemOk q.1 q.2 (needL (x :: xs')) := by
-          exact elemPairs_ok (x :: xs') (by simpa [inC01L] using hxs) ctx.nested hf.nested
-        rw [seq_body ctx hf kind x xs' (nonEmpty? tr)]
-        simp only [erase, need]
-        have hk3 : kind = 0 ∨ kind = 1 ∨ kind = 2 := by omega
-        have hstart : ∀ (close : Str) (hc : isCloser close) (f : Nat), xs'.length + 3 + needL (x :: xs') ≤ f → ∀ (tc : Bool) (rest : List CT),
-            parseTailStart f close (canonW ctx.nested x none ++ tailToks (canonL ctx.nested xs') tc ++ .code close :: rest) =
-              some (eraseL (x :: xs'), tc, rest) := by
-          intro close hc f hfu tc rest
-          have := parseTailStart_ok close hc (needL (x :: xs')) (canonW ctx.nested x none, erase x) (elemPairs ctx.nested xs') tc
-            (by simpa [elemPairs] using hpairs) f (by rw [elemPairs_length]; exact hfu) rest
-          simpa [elemPairs_fst, elemPairs_snd, eraseL] using this
-        rcases hk3 with rfl | rfl | rfl
-        · refine ⟨headOk_open 91 (Or.inl rfl) _, ?_⟩
+        have hpairs : ∀ q ∈ elemPairs ctx.nested (x :: xs'), ElemOk q.1 q.2 (needL (x :: xs')) :=
+          elemPairs_ok (x :: xs') hxs ctx.nested hf.nested
+        simp only [List.isEmpty_cons, Bool.false_eq_true, if_false]
+        rw [seq_body ctx hf 0 x xs' none]
+        -- the inner list literal
+        have hlist : ElemOk ([(bracketToks 0).1] ++ (canonW ctx.nested x none ++ tailToks (canonL ctx.nested xs') ((none : Option PS).isSome || (0 == 1 && xs'.isEmpty))) ++
+            [(bracketToks 0).2]) (.list (eraseL (x :: xs'))) (xs'.length + 5 + needL (x :: xs')) := by
+          refine ⟨headOk_open 91 (Or.inl rfl) _, ?_⟩
           intro f hfu rest
           cases f with
           | zero => simp at hfu
           | succ f =>
-            have := hstart [93] (Or.inl rfl) f (by simp at hfu ⊢; omega) ((nonEmpty? tr).isSome || (0 == 1 && xs'.isEmpty)) rest
-            simp only [bracketToks, beq_self_eq_true, if_true, List.cons_append, List.nil_append, List.append_assoc, List.singleton_append] at this ⊢
+            have := parseTailStart_ok [93] (Or.inl rfl) (needL (x :: xs')) (canonW ctx.nested x none, erase x) (elemPairs ctx.nested xs') false
+              (by simpa [elemPairs] using hpairs) f (by rw [elemPairs_length]; omega) rest
+            simp only [List.map_cons, elemPairs_fst, elemPairs_snd] at this
+            simp only [bracketToks, beq_self_eq_true, if_true, Option.isSome_none, Bool.false_or, show ((0 : Nat) == 1) = false from rfl,
+              Bool.false_and, List.cons_append, List.nil_append, List.append_assoc, List.singleton_append] at this ⊢
             rw [parseV_list, this]
-            rfl
-        · refine ⟨headOk_open 40 (Or.inr (Or.inl rfl)) _, ?_⟩
+            simp [asList, eraseL]
+        cases cls with
+        | none =>
+          have hname : cd (builtin nmFrozenset).2 = [.code sFrozenset] := by simp [builtin, nmFrozenset, sFrozenset, cd, isBlank]
+          simp only [Option.getD_none, fsetR, callToks, hname, seqToks, bracketToks, beq_self_eq_true, if_true, Option.isSome_none, Bool.false_or,
+            show ((0 : Nat) == 1) = false from rfl, Bool.false_and]
+          refine ⟨headOk_code _ (by decide) (by decide) (by decide) (by decide) (by decide) _, ?_⟩
           intro f hfu rest
           cases f with
           | zero => simp at hfu
           | succ f =>
-            have := hstart [41] (Or.inr (Or.inl rfl)) f (by simp at hfu ⊢; omega) ((nonEmpty? tr).isSome || (1 == 1 && xs'.isEmpty)) rest
-            simp only [bracketToks, LP, RP, List.cons_append, List.nil_append, List.append_assoc, List.singleton_append] at this ⊢
-            simp only [show ((1 : Nat) == 0) = false from rfl, Bool.false_eq_true, if_false, beq_self_eq_true, if_true] at this ⊢
-            rw [parseV_tuple, this]
-            -- a one-element tuple always carries its comma
-            cases xs' with
-            | nil => simp [asTuple, eraseL]
-            | cons y ys => simp [asTuple, eraseL]
-        · have eT : ((nonEmpty? tr).isSome || ((2 : Nat) == 1 && xs'.isEmpty)) = (nonEmpty? tr).isSome := by simp
-          rw [eT]
-          refine ⟨headOk_open 123 (Or.inr (Or.inr rfl)) _, ?_⟩
-          intro f hfu rest
+            have := parseTailStart_ok [93] (Or.inl rfl) (needL (x :: xs')) (canonW ctx.nested x none, erase x) (elemPairs ctx.nested xs') false
+              (by simpa [elemPairs] using hpairs) f (by rw [elemPairs_length]; simp at hfu ⊢; omega) (RP :: rest)
+            simp only [List.map_cons, elemPairs_fst, elemPairs_snd] at this
+            simp only [List.cons_append, List.nil_append, List.append_assoc, List.singleton_append, Bool.false_eq_true, if_false, List.append_nil] at this ⊢
+            rw [parseV_fset, this]
+            simp [asFset, RP, eraseL]
+        | some q =>
+          simp only [Option.getD_some, fsetR, List.isEmpty_cons, Bool.false_eq_true, if_false]
+          exact (wrap_read q hc _ _ _ hlist).mono (by simp; omega)
+  | .dict cls kvs, h, ctx, hf, tr, htr => by
+      simp only [inRd, Bool.and_eq_true] at h
+      obtain ⟨hc, hkv⟩ := h
+      have hpp := pairPairs_ok kvs hkv ctx hf
+      have hnone : ElemOk ([CT.code [123]] ++ dictPairToks (canonPairs ctx kvs) ++ [.code [125]]) (.dict (eraseP kvs)) (kvs.length + 4 + needP kvs) := by
+        refine ⟨headOk_open 123 (Or.inr (Or.inr rfl)) _, ?_⟩
+        intro f hfu rest
+        cases f with
+        | zero => omega
+        | succ f =>
           cases f with
-          | zero => simp at hfu
+          | zero => omega
           | succ f =>
-            cases f with
-            | zero => simp at hfu; omega
-            | succ f =>
-              have hx := hpairs (canonW ctx.nested x none, erase x) (by simp [elemPairs])
-              obtain ⟨t0, tr0, ht, _, _, hn3, _, _⟩ := hx.head
+            simp only [List.cons_append, List.nil_append, List.append_assoc, List.singleton_append]
+            rw [parseV_brace]
+            cases kvs with
+            | nil => simp [canonPairs, dictPairToks, parseBrace, eraseP]
+            | cons kv kvs' =>
+              obtain ⟨k, v⟩ := kv
+              have hp1 := hpp ((k, canonW ctx.nested k none, canonW ctx.nested v none), (erase k, erase v)) (by simp [pairPairs])
+              obtain ⟨t0, tr0, ht, _, _, hn3, _, _⟩ := hp1.key.head
               simp only at ht
-              have hread := hx.reads f (by simp at hfu ⊢; have := need_le_needL (x :: xs') x (by simp); omega)
-                (tailToks (canonL ctx.nested xs') (nonEmpty? tr).isSome ++ .code [125] :: rest)
-              have htail := parseTail_ok [125] (Or.inr (Or.inr rfl)) (needL (x :: xs')) (elemPairs ctx.nested xs')
-                (nonEmpty? tr).isSome (fun q hq => hpairs q (by simp [elemPairs, hq])) f
-                (by rw [elemPairs_length]; simp at hfu ⊢; omega) rest
-              rw [elemPairs_fst, elemPairs_snd] at htail
-              simp only [bracketToks, List.cons_append, List.nil_append, List.append_assoc, List.singleton_append]
-              simp only [show ((2 : Nat) == 0) = false from rfl, show ((2 : Nat) == 1) = false from rfl, Bool.false_eq_true, if_false]
-              rw [parseV_brace]
-              simp only at hread
-              rw [ht] at hread ⊢
-              simp only [List.cons_append] at hread ⊢
+              rw [← pairPairs_fst ctx hf]
+              simp only [pairPairs, List.map_cons]
+              rw [dictPairToks_cons]
+              simp only [List.append_assoc, List.cons_append]
+              have hkread := hp1.key.reads f (by simp [needP] at hfu ⊢; omega)
+                (COLON_T :: (canonW ctx.nested v none ++ (pairTail ((pairPairs ctx kvs').map (·.1)) ++ CT.code [125] :: rest)))
+              have hvread := hp1.val.reads f (by simp [needP] at hfu ⊢; omega)
+                (pairTail ((pairPairs ctx kvs').map (·.1)) ++ CT.code [125] :: rest)
+              have hrest := parsePairs_ok (needP ((k, v) :: kvs')) (pairPairs ctx kvs') (fun q hq => hpp q (by simp [pairPairs, hq])) f
+                (by rw [pairPairs_length]; simp at hfu ⊢; omega) rest
+              simp only at hkread hvread
+              rw [ht] at hkread ⊢
+              simp only [List.cons_append] at hkread ⊢
               have hb : ∀ r, parseBrace (f + 1) (t0 :: r) =
                   braceAfterFirst (parseV f (t0 :: r)) (fun t => parseV f t) (fun t => parsePairs f t) (fun t => parseTail f [125] t) := by
                 intro r
@@ -640,118 +970,157 @@ theorem canon_reads : (v : PyVal) → inC01 v = true → ∀ (ctx : Ctx), Free c
                   have : c2 ≠ [125] := fun e => hn3 (by rw [e])
                   simp [parseBrace, this]
                 | lit v => simp [parseBrace]
-              rw [hb, hread]
-              rw [braceAfterFirst_set _ _ _ _ _ _ _ _ (tailToks_head _ _ _ _ (by decide)) htail]
-              simp [eraseL]
-  | .frozenset cls xs, h, ctx, hf, tr => by
-      simp only [inC01, Bool.and_eq_true, Option.isNone_iff_eq_none] at h
-      obtain ⟨rfl, hxs⟩ := h
-      simp only [canonW, hf.any, Bool.false_eq_true, if_false, Option.getD_none, erase, need]
-      have hname : cd (builtin nmFrozenset).2 = [.code sFrozenset] := by simp [builtin, nmFrozenset, sFrozenset, cd, isBlank]
-      cases xs with
-      | nil =>
-        simp only [List.isEmpty_nil, if_true, hname, eraseL]
-        refine ⟨headOk_code _ (by decide) (by decide) (by decide) (by decide) (by decide) _, ?_⟩
-        intro f hfu rest
-        cases f with
-        | zero => simp at hfu
-        | succ f => simpa using parseV_fset0 f rest
-      | cons x xs' =>
-        have hpairs : ∀ q ∈ elemPairs ctx.nested (x :: xs'), ElemOk q.1 q.2 (needL (x :: xs')) :=
-          elemPairs_ok (x :: xs') hxs ctx.nested hf.nested
-        simp only [List.isEmpty_cons, Bool.false_eq_true, if_false]
-        rw [seq_body ctx hf 0 x xs' none]
-        simp only [callToks, hname, seqToks, bracketToks, beq_self_eq_true, if_true, Option.isSome_none, Bool.false_or,
-          show ((0 : Nat) == 1) = false from rfl, Bool.false_and]
-        refine ⟨headOk_code _ (by decide) (by decide) (by decide) (by decide) (by decide) _, ?_⟩
-        intro f hfu rest
-        cases f with
-        | zero => simp at hfu
-        | succ f =>
-          have := parseTailStart_ok [93] (Or.inl rfl) (needL (x :: xs')) (canonW ctx.nested x none, erase x) (elemPairs ctx.nested xs') false
-            (by simpa [elemPairs] using hpairs) f (by rw [elemPairs_length]; simp at hfu ⊢; omega) (RP :: rest)
-          simp only [List.map_cons, elemPairs_fst, elemPairs_snd] at this
-          simp only [List.cons_append, List.nil_append, List.append_assoc, List.singleton_append, Bool.false_eq_true, if_false, List.append_nil] at this ⊢
-          rw [parseV_fset, this]
-          simp [asFset, RP, eraseL]
-  | .dict cls kvs, h, ctx, hf, tr => by
-      simp only [inC01, Bool.and_eq_true, Option.isNone_iff_eq_none] at h
-      obtain ⟨rfl, hkv⟩ := h
-      have hpp := pairPairs_ok kvs hkv ctx hf
+              rw [hb, hkread]
+              simp only [COLON_T]
+              rw [braceAfterFirst_dict _ _ _ _ _ _ _ _ _ hvread hrest]
+              simp [eraseP, pairPairs_snd]
       simp only [canonW, erase, need]
       unfold dictCanon
-      simp only [hf.depthZero, Bool.false_eq_true, if_false, hf.2.2, hf.2.1, takeOpt, Option.isNone_none, if_true]
-      refine ⟨headOk_open 123 (Or.inr (Or.inr rfl)) _, ?_⟩
-      intro f hfu rest
-      cases f with
-      | zero => omega
-      | succ f =>
-        cases f with
-        | zero => omega
-        | succ f =>
-          simp only [List.cons_append, List.nil_append, List.append_assoc, List.singleton_append]
-          rw [parseV_brace]
-          cases kvs with
-          | nil => simp [canonPairs, dictPairToks, parseBrace, eraseP]
-          | cons kv kvs' =>
-            obtain ⟨k, v⟩ := kv
-            have hp1 := hpp ((k, canonW ctx.nested k none, canonW ctx.nested v none), (erase k, erase v)) (by simp [pairPairs])
-            obtain ⟨t0, tr0, ht, _, _, hn3, _, _⟩ := hp1.key.head
-            simp only at ht
-            rw [← pairPairs_fst ctx hf]
-            simp only [pairPairs, List.map_cons]
-            rw [dictPairToks_cons]
-            simp only [List.append_assoc, List.cons_append]
-            have hkread := hp1.key.reads f (by simp [needP] at hfu ⊢; omega)
-              (COLON_T :: (canonW ctx.nested v none ++ (pairTail ((pairPairs ctx kvs').map (·.1)) ++ CT.code [125] :: rest)))
-            have hvread := hp1.val.reads f (by simp [needP] at hfu ⊢; omega)
-              (pairTail ((pairPairs ctx kvs').map (·.1)) ++ CT.code [125] :: rest)
-            have hrest := parsePairs_ok (needP ((k, v) :: kvs')) (pairPairs ctx kvs') (fun q hq => hpp q (by simp [pairPairs, hq])) f
-              (by rw [pairPairs_length]; simp at hfu ⊢; omega) rest
-            simp only at hkread hvread
-            rw [ht] at hkread ⊢
-            simp only [List.cons_append] at hkread ⊢
-            have hb : ∀ r, parseBrace (f + 1) (t0 :: r) =
-                braceAfterFirst (parseV f (t0 :: r)) (fun t => parseV f t) (fun t => parsePairs f t) (fun t => parseTail f [125] t) := by
-              intro r
-              cases t0 with
-              | code c2 =>
-                have : c2 ≠ [125] := fun e => hn3 (by rw [e])
-                simp [parseBrace, this]
-              | lit v => simp [parseBrace]
-            rw [hb, hkread]
-            simp only [COLON_T]
-            rw [braceAfterFirst_dict _ _ _ _ _ _ _ _ _ hvread hrest]
-            simp [eraseP, pairPairs_snd]
-  | .opaque _, h, _, _, _ => by simp [inC01] at h
-  | .ident _, h, _, _, _ => by simp [inC01] at h
-  | .timedelta _ _ _, h, _, _, _ => by simp [inC01] at h
-  | .path _ _, h, _, _, _ => by simp [inC01] at h
-  | .call _ _ _, h, _, _, _ => by simp [inC01] at h
+      simp only [hf.depthZero, Bool.false_eq_true, if_false, hf.2.2, hf.2.1, takeOpt, withTruncation_noLimit']
+      cases cls with
+      | none => simp only [Option.isNone_none, if_true, wrapNE]; exact hnone.mono (by omega)
+      | some q =>
+        simp only [Option.isNone_some, Bool.false_eq_true, if_false, Option.getD_some, wrapNE]
+        cases kvs with
+        | nil =>
+          have ht : nonEmpty? tr = none := htr (by simp [emptyDictSub])
+          simp only [canonPairs, List.isEmpty_nil, ht, Option.isNone_none, Bool.and_self, if_true]
+          exact (empty_call_read ctx hf q hc).mono (Nat.le_trans (by decide : 4 ≤ 10) (Nat.le_add_right _ _))
+        | cons kv kvs' =>
+          obtain ⟨k, v⟩ := kv
+          simp only [canonPairs, List.isEmpty_cons, Bool.false_and, Bool.false_eq_true, if_false]
+          have := (wrap_read q hc _ _ _ hnone)
+          simp only [canonPairs] at this
+          exact this.mono (by simp; omega)
+  | .call fn args kwargs, h, ctx, hf, tr, _ => by
+      simp only [inRd, Bool.and_eq_true] at h
+      obtain ⟨⟨hn, ha⟩, hk⟩ := h
+      simp only [canonW, hf.any, Bool.false_eq_true, if_false, erase, need]
+      -- hugging only changes the context of the sole argument, and a free context is free at every level
+      have hargs : ∀ (c : Ctx), Free c → ∀ q ∈ elemPairs c args, ElemOk q.1 q.2 (max (needL args) (needK kwargs)) := by
+        intro c hc q hq
+        exact (elemPairs_ok args ha c hc q hq).mono (by omega)
+      have hkws : ∀ q ∈ kwPairs ctx.nested kwargs, ElemOk q.1 q.2 (max (needL args) (needK kwargs)) := by
+        intro q hq
+        exact (kwPairs_ok kwargs hk ctx.nested hf.nested q hq).mono (by omega)
+      have hcanonKw : ∀ (c : Ctx) (kws : List (Str × PyVal)), inRdK kws = true → canonKw c kws = (kwPairs c kws).map (·.1) := by
+        intro c kws
+        induction kws with
+        | nil => intro _; rfl
+        | cons p r ih =>
+          obtain ⟨k, v⟩ := p
+          intro hh
+          simp only [inRdK, Bool.and_eq_true] at hh
+          simp only [canonKw, kwPairs, List.map_cons, ih hh.2, cd_name k (okName_not_blank k hh.1.1), EQ_T, List.cons_append, List.nil_append,
+            List.singleton_append]
+      by_cases hh : hugCall args kwargs = true
+      · simp only [hh, if_true]
+        have hk0 : kwargs = [] := by
+          cases kwargs with
+          | nil => rfl
+          | cons p r => simp [hugCall] at hh
+        subst hk0
+        have := call_read fn.2 hn (elemPairs ctx args) (max (needL args) (needK [])) (hargs ctx hf)
+        rw [elemPairs_fst, elemPairs_snd, elemPairs_length] at this
+        simp only [callToks, cd_name fn.2 (okName_not_blank fn.2 hn), eraseK, List.append_nil, List.cons_append, List.nil_append,
+          List.singleton_append, List.length_nil, Nat.add_zero, List.append_assoc]
+        exact this.mono (by omega)
+      · simp only [hh, Bool.false_eq_true, if_false]
+        have := call_read fn.2 hn (elemPairs ctx.nested args ++ kwPairs ctx.nested kwargs) (max (needL args) (needK kwargs))
+          (by
+            intro q hq
+            rcases List.mem_append.mp hq with hq | hq
+            · exact hargs ctx.nested hf.nested q hq
+            · exact hkws q hq)
+        rw [List.map_append, List.map_append, elemPairs_fst, elemPairs_snd, kwPairs_snd, List.length_append, elemPairs_length,
+          kwPairs_length, ← hcanonKw ctx.nested kwargs hk] at this
+        simp only [callToks, cd_name fn.2 (okName_not_blank fn.2 hn), List.cons_append, List.nil_append, List.singleton_append, List.append_assoc]
+        exact this.mono (by omega)
+  | .opaque _, h, _, _, _, _ => by simp [inRd] at h
+  | .ident _, h, _, _, _, _ => by simp [inRd] at h
+  | .timedelta _ _ _, h, _, _, _, _ => by simp [inRd] at h
+  | .path _ _, h, _, _, _, _ => by simp [inRd] at h
 
-theorem elemPairs_ok : (xs : List PyVal) → inC01L xs = true → ∀ (ctx : Ctx), Free ctx →
+theorem elemPairs_ok : (xs : List PyVal) → inRdL xs = true → ∀ (ctx : Ctx), Free ctx →
     ∀ q ∈ elemPairs ctx xs, ElemOk q.1 q.2 (needL xs)
   | [], _, _, _ => by simp [elemPairs]
   | v :: r, h, ctx, hf => by
-      simp only [inC01L, Bool.and_eq_true] at h
+      simp only [inRdL, Bool.and_eq_true] at h
       intro q hq
       simp only [elemPairs, List.mem_cons] at hq
       rcases hq with rfl | hq
-      · exact (canon_reads v h.1 ctx hf none).mono (by simp [needL]; omega)
+      · exact (canon_reads v h.1 ctx hf none (fun _ => rfl)).mono (by simp [needL]; omega)
       · exact (elemPairs_ok r h.2 ctx hf q hq).mono (by simp [needL]; omega)
 
-theorem pairPairs_ok : (kvs : List (PyVal × PyVal)) → inC01P kvs = true → ∀ (ctx : Ctx), Free ctx →
+theorem pairPairs_ok : (kvs : List (PyVal × PyVal)) → inRdP kvs = true → ∀ (ctx : Ctx), Free ctx →
     ∀ p ∈ pairPairs ctx kvs, PairOk p.1 p.2 (needP kvs)
   | [], _, _, _ => by simp [pairPairs]
   | (k, v) :: r, h, ctx, hf => by
-      simp only [inC01P, Bool.and_eq_true] at h
+      simp only [inRdP, Bool.and_eq_true] at h
       intro p hp
       simp only [pairPairs, List.mem_cons] at hp
       rcases hp with rfl | hp
-      · exact ⟨(canon_reads k h.1.1 ctx.nested hf.nested none).mono (by simp [needP]; omega),
-               (canon_reads v h.1.2 ctx.nested hf.nested none).mono (by simp [needP]; omega)⟩
+      · exact ⟨(canon_reads k h.1.1 ctx.nested hf.nested none (fun _ => rfl)).mono (by simp [needP]; omega),
+               (canon_reads v h.1.2 ctx.nested hf.nested none (fun _ => rfl)).mono (by simp [needP]; omega)⟩
       · have := pairPairs_ok r h.2 ctx hf p hp
         exact ⟨this.key.mono (by simp [needP]; omega), this.val.mono (by simp [needP]; omega)⟩
+
+theorem kwPairs_ok : (kws : List (Str × PyVal)) → inRdK kws = true → ∀ (ctx : Ctx), Free ctx →
+    ∀ q ∈ kwPairs ctx kws, ElemOk q.1 q.2 (needK kws)
+  | [], _, _, _ => by simp [kwPairs]
+  | (k, v) :: r, h, ctx, hf => by
+      simp only [inRdK, Bool.and_eq_true] at h
+      intro q hq
+      simp only [kwPairs, List.mem_cons] at hq
+      rcases hq with rfl | hq
+      · exact (kwarg_read k h.1.1 _ _ _ (canon_reads v h.1.2 ctx hf none (fun _ => rfl))).mono (by simp [needK]; omega)
+      · exact (kwPairs_ok r h.2 ctx hf q hq).mono (by simp [needK]; omega)
+end
+
+/-! ### the old fragment is part of the new one -/
+
+mutual
+theorem inC01_inRd : (v : PyVal) → inC01 v = true → inRd v = true ∧ emptyDictSub v = false
+  | .commented v _, h => by
+      have := inC01_inRd v (by simpa [inC01] using h); simpa [inRd, emptyDictSub] using this
+  | .trailing v _, h => by
+      have := inC01_inRd v (by simpa [inC01] using h); simp [inRd, emptyDictSub, this.1, this.2]
+  | .none, _ => by simp [inRd, emptyDictSub]
+  | .ellipsis, _ => by simp [inRd, emptyDictSub]
+  | .bool _, _ => by simp [inRd, emptyDictSub]
+  | .int cls _ lit, h => by
+      simp only [inC01, Bool.and_eq_true, Option.isNone_iff_eq_none] at h; obtain ⟨rfl, hl⟩ := h; simp [inRd, clsOk, hl, emptyDictSub]
+  | .float cls kind lit _ _, h => by
+      simp only [inC01, Bool.and_eq_true, Option.isNone_iff_eq_none] at h; obtain ⟨rfl, hl⟩ := h; simp [inRd, clsOk, emptyDictSub]; simpa using hl
+  | .str cls _ _, h => by
+      simp only [inC01, Option.isNone_iff_eq_none] at h; subst h; simp [inRd, clsOk, emptyDictSub]
+  | .seq kind cls xs, h => by
+      simp only [inC01, Bool.and_eq_true, Option.isNone_iff_eq_none, decide_eq_true_eq] at h
+      obtain ⟨⟨rfl, hk⟩, hxs⟩ := h
+      simp [inRd, clsOk, hk, inC01L_inRdL xs hxs, emptyDictSub]
+  | .frozenset cls xs, h => by
+      simp only [inC01, Bool.and_eq_true, Option.isNone_iff_eq_none] at h
+      obtain ⟨rfl, hxs⟩ := h
+      simp [inRd, clsOk, inC01L_inRdL xs hxs, emptyDictSub]
+  | .dict cls kvs, h => by
+      simp only [inC01, Bool.and_eq_true, Option.isNone_iff_eq_none] at h
+      obtain ⟨rfl, hkv⟩ := h
+      simp [inRd, clsOk, inC01P_inRdP kvs hkv, emptyDictSub]
+  | .opaque _, h => by simp [inC01] at h
+  | .ident _, h => by simp [inC01] at h
+  | .timedelta _ _ _, h => by simp [inC01] at h
+  | .path _ _, h => by simp [inC01] at h
+  | .call _ _ _, h => by simp [inC01] at h
+theorem inC01L_inRdL : (xs : List PyVal) → inC01L xs = true → inRdL xs = true
+  | [], _ => rfl
+  | v :: r, h => by
+      simp only [inC01L, Bool.and_eq_true] at h
+      simp [inRdL, (inC01_inRd v h.1).1, inC01L_inRdL r h.2]
+theorem inC01P_inRdP : (kvs : List (PyVal × PyVal)) → inC01P kvs = true → inRdP kvs = true
+  | [], _ => rfl
+  | (k, v) :: r, h => by
+      simp only [inC01P, Bool.and_eq_true] at h
+      simp [inRdP, (inC01_inRd k h.1.1).1, (inC01_inRd v h.1.2).1, inC01P_inRdP r h.2]
 end
 
 end Tok
